@@ -46,7 +46,13 @@ def mp():
     return _mp
 
 def mpv(h, l):
+    """exact value hi + lo as an mpf: the working precision is raised (never lowered) when the two words are so far apart that the
+    sum does not fit — e.g. (-1, 2^-591) needs 644 bits — so that the reference is never computed at a rounded argument"""
     m = mp()
+    if l != 0 and h != 0 and fp.isfin(h) and fp.isfin(l):
+        need = math.frexp(h)[1] - math.frexp(l)[1] + 53 + 120
+        if need > m.mp.prec:
+            m.mp.prec = min(need, 2400)
     return m.mpf(h) + m.mpf(l)
 
 def mp_of_fr(q):
